@@ -248,7 +248,7 @@ def rand_fchord(rng):
 
 def mutate_chord(rng, c):
     m = copy.deepcopy(c)
-    f = rng.choice(["same", "order", "respell", "elem", "fig", "oct", "part", "mode", "same"])
+    f = rng.choice(["same", "order", "respell", "elem", "fig", "fig5", "oct", "part", "mode", "same"])
     if f == "order":
         rng.shuffle(m["parts"])
     elif f == "respell":
@@ -258,6 +258,9 @@ def mutate_chord(rng, c):
         m["elem"] = (m["elem"] + 1) % 7
     elif f == "fig":
         m["fig"] = "7" if m["fig"] != "7" else "6"; m.pop("repl", None); m.pop("adds", None); m.pop("rems", None)
+    elif f == "fig5" and not (m.get("repl") or m.get("adds") or m.get("rems")):
+        # the two spellings of a root position triad
+        m["fig"] = {"": "5", "5": ""}.get(m["fig"], "5")
     elif f == "oct":
         m["coct"] += 1
     elif f == "part" and m["parts"]:
